@@ -8,6 +8,7 @@ import Driver.Log
 import Driver.SqlText
 import Driver.Engine
 import Driver.TxToScript
+import Driver.Store
 /-! registry of the areas the driver serves -/
 namespace Driver
 def areas : List (String × Handler) := [
@@ -20,6 +21,7 @@ def areas : List (String × Handler) := [
   ("sqltext", SqlTextD.handle),
   ("sqllex", SqlTextD.handleLex),
   ("enginetrace", EngineD.handle),
-  ("txscript", TxToScriptD.handle)
+  ("txscript", TxToScriptD.handle),
+  ("storeview", StoreD.handle)
 ]
 end Driver
